@@ -1143,7 +1143,8 @@ func (a ApplyFn) isTerm() {}
 
 // Hash returns a hash code for this expression.
 func (a ApplyFn) Hash() uint64 {
-	return hashTerm(a.Function.String(), a.Args)
+	// Equals compares the function symbol and the arguments, not the declared arity (-1 for variadic functions).
+	return hashTerm(a.Function.Symbol, a.Args)
 }
 
 // String returns a string representation for this atom.
